@@ -1342,16 +1342,23 @@ where
                 line!(),
             );
             let sc = self.size_ctl.load(Ordering::SeqCst);
+            // (the load of transfer_index below is short-circuited: announce it only when it happens)
             #[cfg(flurry_verif)]
-            crate::verif::word_op(
-                &self.transfer_index,
-                crate::verif::word::TRANSFER_INDEX,
-                crate::verif::access::LOAD,
-                Ordering::SeqCst,
-                0,
-                0,
-                line!(),
-            );
+            if !(sc >= 0
+                || (sc as usize >> RESIZE_STAMP_SHIFT) != (rs as usize >> RESIZE_STAMP_SHIFT)
+                || sc == rs + MAX_RESIZERS
+                || sc == rs + 1)
+            {
+                crate::verif::word_op(
+                    &self.transfer_index,
+                    crate::verif::word::TRANSFER_INDEX,
+                    crate::verif::access::LOAD,
+                    Ordering::SeqCst,
+                    0,
+                    0,
+                    line!(),
+                );
+            }
             if sc >= 0
                 // the resize in progress must be the one of _this_ table (as in the Java code):
                 // otherwise we would join a later resize with the tables of an earlier one
